@@ -75,8 +75,11 @@ func (c *Ctx) ruleStoresLocked(rule string) {
 				want, what = "DataContext.lockBase", "injected table"
 			}
 			held := x.heldAt(in)
-			_, ok := held[want]
-			c.Check(rule, key, ok, in.Pos(), "%s of the %s with locks held %v (need %s)", kind, what, heldNames(held), want)
+			hk, ok := held[want]
+			if ok && (kind == "write" || kind == "delete") && hk != "Lock" {
+				ok = false
+			}
+			c.Check(rule, key, ok, in.Pos(), "%s of the %s with locks held %v (need %s, exclusively for writes)", kind, what, heldKinds(held), want)
 		})
 	}
 	if n == 0 {
